@@ -20,7 +20,7 @@ ASSUMPTIONS = [
     "into_ranges is judged for string and float columns and supplied functions (integer columns without a function are outside the statement)",
     "iter_ranges_of(mode='trim') is out of domain (clipping has no meaning for a column of values)",
 ]
-BUDGET_S = {"quick": 300, "thorough": 3000}
+BUDGET_S = {"quick": 900, "thorough": 7200}
 VARIANTS = ["none", "rows", "queries", "both"]
 _SCOPE = {}
 
